@@ -1144,27 +1144,8 @@ impl EGraph {
     ///
     /// This will return an error if an egglog primitive returns None in an action.
     pub fn step_rules(&mut self, ruleset: &str) -> Result<RunReport, Error> {
-        fn collect_rule_ids(
-            ruleset: &str,
-            rulesets: &IndexMap<String, Ruleset>,
-            ids: &mut Vec<egglog_bridge::RuleId>,
-        ) {
-            match &rulesets[ruleset] {
-                Ruleset::Rules(rules) => {
-                    for (_, id) in rules.values() {
-                        ids.push(*id);
-                    }
-                }
-                Ruleset::Combined(sub_rulesets) => {
-                    for sub_ruleset in sub_rulesets {
-                        collect_rule_ids(sub_ruleset, rulesets, ids);
-                    }
-                }
-            }
-        }
-
         let mut rule_ids = Vec::new();
-        collect_rule_ids(ruleset, &self.rulesets, &mut rule_ids);
+        self.collect_rule_ids(ruleset, &span!(), &mut Vec::new(), &mut rule_ids)?;
 
         let iteration_report = self
             .backend
@@ -1172,6 +1153,58 @@ impl EGraph {
             .map_err(|e| Error::BackendError(e.to_string()))?;
 
         Ok(RunReport::singleton(ruleset, iteration_report))
+    }
+
+    /// Append the rules of `ruleset`, following combined rulesets, to `ids`.
+    ///
+    /// A combined ruleset only records the names of its members, so a member
+    /// may be missing or (directly or not) the combined ruleset itself; both
+    /// are reported as errors. `stack` holds the combined rulesets being
+    /// expanded.
+    fn collect_rule_ids<'a>(
+        &'a self,
+        ruleset: &'a str,
+        span: &Span,
+        stack: &mut Vec<&'a str>,
+        ids: &mut Vec<egglog_bridge::RuleId>,
+    ) -> Result<(), Error> {
+        match self.rulesets.get(ruleset) {
+            None => Err(Error::NoSuchRuleset(ruleset.to_owned(), span.clone())),
+            Some(Ruleset::Rules(rules)) => {
+                ids.extend(rules.values().map(|(_, id)| *id));
+                Ok(())
+            }
+            Some(Ruleset::Combined(sub_rulesets)) => {
+                if stack.contains(&ruleset) {
+                    return Err(Error::BackendError(format!(
+                        "combined ruleset {ruleset} contains itself"
+                    )));
+                }
+                stack.push(ruleset);
+                for sub_ruleset in sub_rulesets {
+                    self.collect_rule_ids(sub_ruleset, span, stack, ids)?;
+                }
+                stack.pop();
+                Ok(())
+            }
+        }
+    }
+
+    /// Check that every ruleset `sched` runs exists, so that a schedule naming
+    /// an unknown ruleset is rejected as a whole instead of after the part in
+    /// front of the unknown ruleset has run.
+    fn check_schedule_rulesets(&self, sched: &ResolvedSchedule) -> Result<(), Error> {
+        match sched {
+            ResolvedSchedule::Run(span, config) => {
+                self.collect_rule_ids(&config.ruleset, span, &mut Vec::new(), &mut Vec::new())
+            }
+            ResolvedSchedule::Repeat(_, _, sched) | ResolvedSchedule::Saturate(_, sched) => {
+                self.check_schedule_rulesets(sched)
+            }
+            ResolvedSchedule::Sequence(_, scheds) => scheds
+                .iter()
+                .try_for_each(|sched| self.check_schedule_rulesets(sched)),
+        }
     }
 
     fn add_rule(&mut self, rule: ast::ResolvedRule) -> Result<String, Error> {
@@ -1713,6 +1746,7 @@ impl EGraph {
                 log::info!("Declared rule {name}.")
             }
             ResolvedNCommand::RunSchedule(sched) => {
+                self.check_schedule_rulesets(&sched)?;
                 let report = self.run_schedule(&sched)?;
                 log::info!("Ran schedule {sched}.");
                 log::info!("Report: {report}");
